@@ -50,6 +50,36 @@ def emission_sequence(B, path):
     return seq
 
 
+def send_chain_untouched(F, R, G, rule):
+    """shared by C04.R1 (sign what you send) and C14.R1 (transparency)"""
+    # the send chain below the signing route must hand the request on untouched: HttpConnectionContext::send_request ->
+    # TcpConnectionContext::send_request -> Client::send_request -> hyper's SendRequest::send_request
+    PCX = "azure_proxy_agent::proxy::proxy_connection::"
+    chain = [f for f in G.reachable([PCX + "HttpConnectionContext::send_request"]) if f in F.fns and F.fns[f]["crate"] == "azure_proxy_agent"
+             and "logger" not in f]
+    n_chain, final = 0, []
+    for fid in sorted(chain):
+        Bc = mir.Body(F.fns[fid], F)
+        if not any("Request<" in str(l.get("ty", "")) for l in Bc.locals):
+            continue
+        n_chain += 1
+        R.touched(fid)
+        muts = [(bi, q.base_name(w).rsplit("::", 1)[-1]) for bi, w, r, t_ in Bc.calls if w != mir.POLL and
+                q.base_name(w or "").startswith("http::Request::") and q.base_name(w).endswith(("_mut", "into_parts", "into_body", "map"))]
+        muts += [(bi, "HeaderMap::" + m) for bi, m, mo, t_ in header_mutations(Bc)]
+        muts += [(c[0], "Request::" + q.base_name(c[1]).rsplit("::", 1)[-1]) for c in Bc.calls_named("Request::from_parts", "Request::new", "Builder::body")]
+        R.check(not muts, rule, "%s:%s:send-chain-untouched" % (rule, fid), "%s:%s" % (F.fns[fid]["file"], F.fns[fid]["line"]),
+                "%s hands the signed request on without touching it" % fid.replace(PCX, ""),
+                "%s modifies the request after it was signed: %s" % (fid.replace(PCX, ""), [(m, q.where(Bc, b)) for b, m in muts]))
+        for bi, w, r, t_ in Bc.calls_named("SendRequest::send_request", "http1::SendRequest::<B>::send_request"):
+            org = Bc.origins(t_["args"][1])
+            final.append(bool(org) and all(o[0] == "param" and not o[2] for o in org))
+    R.check(n_chain >= 3 and final == [True], rule, "%s:send-chain:request-is-parameter" % rule, "proxy_agent/src/proxy/proxy_connection.rs",
+            "the value given to hyper's SendRequest::send_request is the chain's request parameter itself (%d chain functions)" % n_chain,
+            "send chain functions with a Request: %d; hyper send sites with the parameter as argument: %s" % (n_chain, final))
+
+
+
 def run(F, R, tier):
     R.explanation = (
         "Provenance, sibling-agreement and table rules on the signing routes: (R1) the signing route signs the head "
@@ -149,6 +179,8 @@ def run(F, R, tier):
                         check_auth_format(B, R, fmt, HRS, q.where(B, bi),
                                           lambda o: o[0] == "call" and "KeyKeeperSharedState::get_current_key" in q.base_name(o[1]),
                                           "C04.R2")
+
+    send_chain_untouched(F, R, G, "C04.R1")
 
     # HNR: claims/date inserts dominate the HRS call (signed request already carries the proxy headers)
     hnr = R.anchor(HNR, "C04.R1")
